@@ -7,7 +7,7 @@ Open Scope nat_scope.
 (* ------------------------------------------------------------------ where the chunks of the current call are *)
 Definition q_entries (q : list qitem) : list (nat * list Z) :=
   flat_map (fun it => match it with QChunk i xs => [(i, xs)] | QNone => [] end) q.
-Definition hw (w : worker) : list (nat * list Z) := match w_pc w with WHold i xs => [(i, xs)] | _ => [] end.
+Definition hw (w : worker) : list (nat * list Z) := match w_pc w with WHold i xs | WHoldR i xs => [(i, xs)] | _ => [] end.
 Definition held (ps : list worker) : list (nat * list Z) := flat_map hw ps.
 Definition batch_of (m : mpc) : list (nat * list Z) := match m with MFetch b _ => b | _ => [] end.
 Definition entries (s : state) : list (nat * list Z) :=
@@ -247,17 +247,29 @@ Proof.
       rewrite Hh. perm.
     + split; [repeat split; reflexivity|]. unfold entries, with_procs; simpl. rewrite Q. simpl.
       rewrite (held_set_nth_same _ k w) by (auto; unfold hw; simpl; rewrite Pc; reflexivity). reflexivity.
-  - (* result *)
+  - (* result of a chunk that is not the last one of a factory worker *)
+    destruct (c_factory cfg && _); [discriminate|].
     destruct (full (c_rq_cap cfg) (s_resq s)); [discriminate|]. injection W as <- <-.
     split; [repeat split; reflexivity|]. unfold entries, with_procs; simpl. rewrite q_entries_app. simpl.
     set (w' := mkW (w_id w) _ _ (w_ready w) (w_log w)).
     pose proof (held_set_nth (s_procs s) k w w' N) as Hh.
-    assert (Hw' : hw w' = []) by (unfold hw, w'; simpl; destruct (w_quota w) as [[|[|n]]|]; simpl; try destruct (c_factory cfg); reflexivity).
+    assert (Hw' : hw w' = []) by (unfold hw, w'; simpl; destruct (w_quota w) as [[|[|n]]|]; simpl; reflexivity).
     rewrite Hw' in Hh. unfold hw in Hh at 1. rewrite Pc in Hh. simpl in Hh.
     transitivity (q_entries (s_workq s) ++ (held (set_nth k w' (s_procs s)) ++ [(i, xs)]) ++ q_entries (s_resq s)
                   ++ batch_of (s_main s) ++ s_buffer s); [perm|].
     rewrite Hh. perm.
-  - (* retire *) injection W as <- <-. split; [repeat split; reflexivity|]. unfold entries, with_procs; simpl.
+  - (* the last result of a retiring worker *)
+    destruct (full (c_rq_cap cfg) (s_resq s)); [discriminate|]. injection W as <- <-.
+    split; [repeat split; reflexivity|]. unfold entries, with_procs; simpl. rewrite q_entries_app. simpl.
+    set (w' := mkW (w_id w) _ _ (w_ready w) (w_log w)).
+    pose proof (held_set_nth (s_procs s) k w w' N) as Hh.
+    assert (Hw' : hw w' = []) by reflexivity.
+    rewrite Hw' in Hh. unfold hw in Hh at 1. rewrite Pc in Hh. simpl in Hh.
+    transitivity (q_entries (s_workq s) ++ (held (set_nth k w' (s_procs s)) ++ [(i, xs)]) ++ q_entries (s_resq s)
+                  ++ batch_of (s_main s) ++ s_buffer s); [perm|].
+    rewrite Hh. perm.
+  - (* retirement notice: the chunk stays in the worker's hands *)
+    destruct (c_factory cfg && _); [|discriminate]. injection W as <- <-. split; [repeat split; reflexivity|]. unfold entries, with_procs; simpl.
     rewrite (held_set_nth_same _ k w) by (auto; unfold hw; simpl; rewrite Pc; reflexivity). reflexivity.
   - (* end *) injection W as <- <-. split; [repeat split; reflexivity|]. unfold entries, with_procs; simpl.
     rewrite (held_set_nth_same _ k w) by (auto; unfold hw; simpl; rewrite Pc; reflexivity). reflexivity.
